@@ -61,20 +61,32 @@ template<class W>
 static void run_ops(W& w, int fam, int tid, const std::vector<POp>& script, std::vector<LinOp>& hist, std::atomic<uint32_t>* ran)
 {
     int last_seen = 0;
+    int opno = 0;
     (void)fam;
     (void)ran;
     for (const POp& p : script) {
         LinOp o;
         o.thread = tid;
         o.op = p.op;
+        const bool lvalue_arg = ((opno++ + tid) % 2) != 0;
         o.call = vrf::now();
         if constexpr (!std::is_same<W, deferred_guarded<Cell, vrf::shared_timed_mutex_t>>::value) {
             if (p.op == STORE) {
                 o.a = p.val;
-                w.store(vrf::make_value(static_cast<uint32_t>(p.val)));
+                // values reach the register as temporaries (even ids of the thread's script position) or as named lvalues,
+                // which must still hold their value afterwards
+                if (lvalue_arg) {
+                    Cell v = vrf::make_value(static_cast<uint32_t>(p.val));
+                    w.store(v);
+                    vrf::still_holds(v, static_cast<uint32_t>(p.val), "store");
+                } else w.store(vrf::make_value(static_cast<uint32_t>(p.val)));
             } else if (p.op == ASSIGN) {
                 o.a = p.val;
-                w = vrf::make_value(static_cast<uint32_t>(p.val));
+                if (lvalue_arg) {
+                    Cell v = vrf::make_value(static_cast<uint32_t>(p.val));
+                    w = v;
+                    vrf::still_holds(v, static_cast<uint32_t>(p.val), "operator=");
+                } else w = vrf::make_value(static_cast<uint32_t>(p.val));
             }
         }
         if (p.op == LOAD) {
@@ -97,7 +109,9 @@ static void run_ops(W& w, int fam, int tid, const std::vector<POp>& script, std:
         if constexpr (std::is_same<W, atomic_guarded<Cell, vrf::mutex_t>>::value || std::is_same<W, atomic_guarded<Cell, vrf::timed_mutex_t>>::value) {
             if (p.op == EXCHANGE) {
                 o.a = p.val;
-                Cell old = w.exchange(vrf::make_value(static_cast<uint32_t>(p.val)));
+                Cell arg = vrf::make_value(static_cast<uint32_t>(p.val));
+                Cell old = lvalue_arg ? w.exchange(arg) : w.exchange(vrf::make_value(static_cast<uint32_t>(p.val)));
+                if (lvalue_arg) vrf::still_holds(arg, static_cast<uint32_t>(p.val), "exchange");
                 old.check("exchanged value");
                 o.r = old.value();
                 last_seen = static_cast<int>(o.r);
@@ -107,7 +121,9 @@ static void run_ops(W& w, int fam, int tid, const std::vector<POp>& script, std:
                 o.b = p.val;
                 Cell expected;
                 if (e != 0) expected.set_raw(static_cast<uint32_t>(e));
-                bool ok = w.compare_exchange(expected, vrf::make_value(static_cast<uint32_t>(p.val)));
+                Cell desired = vrf::make_value(static_cast<uint32_t>(p.val));
+                bool ok = lvalue_arg ? w.compare_exchange(expected, desired) : w.compare_exchange(expected, vrf::make_value(static_cast<uint32_t>(p.val)));
+                if (lvalue_arg) vrf::still_holds(desired, static_cast<uint32_t>(p.val), "compare_exchange (desired)");
                 expected.check("expected after compare_exchange");
                 o.r = ok ? 1 : 0;
                 o.r2 = expected.value();
